@@ -185,7 +185,7 @@ fn spawn_cfg(base: &Plan) -> crate::cfg::CfgSpec {
     unreachable!("base plan without a spawn")
 }
 
-pub fn run_enumeration(env: &Arc<Env>, known: &Arc<KnownFindings>, cfg: &BatchCfg) -> i32 {
+pub fn run_enumeration(env: &Arc<Env>, known: &Arc<KnownFindings>, cfg: &BatchCfg, prior: Option<BatchResult>, resampled: (u64, u64)) -> i32 {
     let t0 = Instant::now();
     let shared = Arc::new(Mutex::new(Shared {
         stats: Stats::default(),
@@ -322,20 +322,32 @@ pub fn run_enumeration(env: &Arc<Env>, known: &Arc<KnownFindings>, cfg: &BatchCf
         violations = 1;
         exit = 1;
     }
+    let mut stats = std::mem::take(&mut s.stats);
+    let mut samples = std::mem::take(&mut s.samples);
+    let mut sampled_runs = 0;
+    let mut sampled_wall = 0.0;
+    let mut sampled_evaluations = 0;
+    if let Some(p) = &prior {
+        sampled_runs = p.completed_runs;
+        sampled_wall = p.wall.as_secs_f64();
+        sampled_evaluations = p.stats.evaluations;
+        stats.merge(&p.stats);
+        samples.extend(p.samples.iter().cloned());
+    }
     let res = BatchResult {
-        stats: std::mem::take(&mut s.stats),
+        stats,
         failure: None,
         known: Default::default(),
         harness_error: None,
         digests: vec![],
-        samples: std::mem::take(&mut s.samples),
-        completed_runs: s.variants,
-        wall: t0.elapsed(),
+        samples,
+        completed_runs: s.variants + sampled_runs,
+        wall: t0.elapsed() + std::time::Duration::from_secs_f64(sampled_wall),
         capped: capped.load(Ordering::SeqCst),
     };
     let ex = EvidenceExtra {
         level: "fault_enumeration",
-        rule: "for each seeded fault-free base history and each save the engine performs in it: one variant per byte offset k in [0,len] of that save torn by a crash (+ restart), torn + a second host arriving, six failing-save kinds (live context continues, with and without restart), every document of the malformed / wrong-shape / empty-string corpus planted in either user file (+ restart or reload), directory missing / read-only, power loss before flush; each followed by a continuation that retypes every learned word bare and suffixed, learns again, restarts and retypes. A case is one variant; states are distinct by the hash under distinct_states_measure".to_string(),
+        rule: "two parts. (1) seeded sampling: 1-2 hosts, the editor, the fault injector and the clock, faults armed right before the commit / restart / spawn / update they should bite, swarm-selected fault kinds. (2) enumeration: for each seeded fault-free base history and each save the engine performs in it: one variant per byte offset k in [0,len] of that save torn by a crash (+ restart), torn + a second host arriving, six failing-save kinds (live context continues, with and without restart), every document of the malformed / wrong-shape / empty-string corpus planted in either user file (+ restart or reload), directory missing / read-only, power loss before flush; each followed by a continuation that retypes every learned word bare and suffixed, learns again, restarts and retypes. A case is one variant; states are distinct by the hash under distinct_states_measure".to_string(),
         assumptions: vec![
             "exhaustive over the byte prefixes of the stores written in the base histories of this run, not over all stores".into(),
             "SimDisk models std::fs::write as open(O_TRUNC) + write_all".into(),
@@ -346,14 +358,16 @@ pub fn run_enumeration(env: &Arc<Env>, known: &Arc<KnownFindings>, cfg: &BatchCf
             "saves_enumerated": s.saves,
             "byte_prefixes_enumerated": s.prefixes_total,
             "variants_executed": s.variants,
+            "sampled_runs": sampled_runs,
+            "sampled_evaluations": sampled_evaluations,
             "corpus_documents": corpus().len(),
             "exhaustive_over_prefixes_of_written_stores": true,
         }),
     };
-    match write_evidence(env, &verif, cfg, &res, violations, (0, 0), &ex) {
+    match write_evidence(env, &verif, cfg, &res, violations, resampled, &ex) {
         Ok(p) => println!(
-            "C10 enumeration: bases={} saves={} prefixes={} variants={} wall={:.1}s evidence={}",
-            s.bases, s.saves, s.prefixes_total, s.variants, t0.elapsed().as_secs_f64(), p
+            "C10: sampled runs={} + enumeration: bases={} saves={} prefixes={} variants={} wall={:.1}s evidence={}",
+            sampled_runs, s.bases, s.saves, s.prefixes_total, s.variants, res.wall.as_secs_f64(), p
         ),
         Err(e) => {
             println!("HARNESS-ERROR: {}", e);
